@@ -111,6 +111,25 @@ def stamp_of(prog, state, sep=0):
     return {k[len("@%s." % added[0]):]: v for k, v in ev.env.items() if k.startswith("@%s." % added[0])}
 
 
+def refused_realloc_rule(prog, run, rid):
+    """a realloc request the detector refuses itself (size + bookkeeping would overflow) leaves the set of outstanding blocks as it was:
+    the caller still owns the block, a later paired release must not be reported as 'non-allocated' (shared with C06)"""
+    from .shared import detector_fold
+    rm = prog.fn(DET + "::reallocMemory")
+    run.analysed(rm)
+    names = [q["name"] for q in rm.params]
+    for sep in (0, 1):
+        for size in ((1 << 64) - 1, (1 << 64) - 9):
+            try:
+                r, log, ev = detector_fold(prog, rm, dict(zip(names, (9000, 50000, size, 111000, 77, sep))), {"remove": 6000, "realloc": 70000})
+            except Unknown as u:
+                raise AnalysisBroken("%s.%s: reallocMemory cannot be folded for a refused size: %s" % (run.pid, rid, u))
+            kinds = [k for k, a_ in log]
+            ok = r == 0 and "remove" not in kinds and "add" not in kinds
+            run.ob(rid, "reallocMemory folded [%s record, known block, size %d whose bookkeeping overflows]: refused with NULL and the block's record stays" % ("separate" if sep else "inline", size), rm.site, ok,
+                   witness={"returns": r, "calls": kinds}, what="" if ok else "the refused request returns %s after %s: the caller still owns the block, but it is no longer among the outstanding ones (its release is then reported as non-allocated memory)" % (r, kinds))
+
+
 def list_total_rule(prog, run, rid, maxn=4):
     """MemoryLeakDetectorList::getTotalLeaks folded on every list of 0..maxn records x every in-period pattern: the count is
     the number of records of the period, wherever they stand (shared with C07: the per-test verdict is this count)"""
@@ -497,13 +516,20 @@ def check(ctx, run):
                     why = "a failed realloc stores a record or returns a block (%s -> %s)" % (kinds, r)
                 run.ob("R5", "reallocMemory folded [%s record, block %s, realloc answers %s]: the old record is removed before the new one is stored" % ("separate" if sep else "inline", "known" if known else "unknown", newmem), rm.site, not why,
                        witness={"returns": r, "calls": kinds}, what=why)
-            # a request the detector refuses itself (size + bookkeeping would overflow) leaves the set of outstanding blocks as it was
-            for size in ((1 << 64) - 1, (1 << 64) - 9):
-                r, log, ev = detector_fold(prog, rm, pv(rm, 9000, 50000, size, 111000, 77, sep), {"remove": 6000, "realloc": 70000})
-                kinds = [k for k, a_ in log]
-                ok = r == 0 and "remove" not in kinds and "add" not in kinds
-                run.ob("R5", "reallocMemory folded [%s record, known block, size %d whose bookkeeping overflows]: refused with NULL and the block's record stays" % ("separate" if sep else "inline", size), rm.site, ok,
-                       witness={"returns": r, "calls": kinds}, what="" if ok else "the refused request returns %s after %s: the caller still owns the block, but it is no longer among the outstanding ones" % (r, kinds))
+        refused_realloc_rule(prog, run, "R5")
+        # a release takes the block out of the set of outstanding blocks whether or not its allocator is still alive (statics are torn
+        # down in an unspecified order): the record goes exactly once; the memory is handed back only to a live allocator
+        dm = [f_ for f_ in prog.fns(DET + "::deallocMemory") if len(f_.params) == 5]
+        if len(dm) != 1:
+            raise AnalysisBroken("C04.R5: the five-parameter deallocMemory not found")
+        dm = dm[0]
+        run.analysed(dm)
+        for sep, destroyed in itertools.product((0, 1), (0, 1)):
+            r, log, ev = detector_fold(prog, dm, pv(dm, 9000, 50000, 111000, 77, sep), {"remove": 6000, "retrieve": 6000, "destroyed": destroyed})
+            kinds = [k for k, a_ in log]
+            ok = kinds.count("remove") == 1 and kinds.count("free") == (0 if destroyed else 1) and "add" not in kinds
+            run.ob("R5", "deallocMemory folded [%s record, allocator %s]: the block's record is removed exactly once%s" % ("separate" if sep else "inline", "already destroyed" if destroyed else "alive", "" if destroyed else " and the memory handed back once"),
+                   dm.site, ok, witness={"calls": kinds}, what="" if ok else "the record is removed %d times, the memory freed %d times: a released block stays among the outstanding ones (or is released twice)" % (kinds.count("remove"), kinds.count("free")))
     except Unknown as u:
         run.broke("C04.R5: allocMemory/reallocMemory cannot be folded: %s" % u)
 
@@ -528,29 +554,8 @@ def check(ctx, run):
     # ---------------- R8 ----------------------------------------------------
     from .C10 import slot_switch_rules, PLUGIN
     slots, saved, stored = slot_switch_rules(prog, run, "R8")
-    FAM = {"operator new": ("operator_new", False), "operator new[]": ("operator_new_array", False), "operator delete": ("operator_delete", True), "operator delete[]": ("operator_delete_array", True)}
-    nops = 0
-    for f in prog.functions.values():
-        if f.file != PLUGIN or f.name not in FAM:
-            continue
-        nops += 1
-        run.analysed(f)
-        prefix, is_del = FAM[f.name]
-        cs = [c for c in f.calls() if c.get("callee") is None]
-        slot = prog.callee_name(f, cs[0]) if len(cs) == 1 else None
-        pts = [q["ct"] for q in f.params]
-        if is_del:
-            want = prefix + "_fptr"
-        else:
-            want = prefix + ("_nothrow_fptr" if any("nothrow_t" in t for t in pts) else ("_debug_fptr" if len(pts) == 3 else "_fptr"))
-        ok = slot == want and render(f, f.args(cs[0])[0]) == f.params[0]["name"]
-        run.ob("R8", "%s(%s) forwards to %s" % (f.name, ", ".join(pts), want), f.site, ok, witness=render(f, cs[0]) if cs else None,
-               what="" if ok else "a global %s overload is routed to slot %s: blocks are accounted under the wrong family" % (f.name, slot))
-        if not is_del and len(pts) == 3:
-            a = [render(f, x, keep_explicit_casts=False) for x in f.args(cs[0])] if cs else []
-            run.ob("R8", "%s(%s) forwards (size, file, line) in order" % (f.name, ", ".join(pts)), f.site, a == [q["name"] for q in f.params], witness=a)
-    if nops < 16:
-        run.broke("only %d global operator new/delete overloads found (18 confirmed by hand)" % nops)
+    from .C10 import overload_routing_rule
+    overload_routing_rule(prog, run, "R8")
     from .C10 import slot_fold
     GETV = {"operator_new": 101, "operator_new_array": 102, "operator_delete": 101, "operator_delete_array": 102, "malloc": 103, "free": 103, "realloc": 103}
     METH = {"operator_new": "allocMemory", "operator_new_array": "allocMemory", "malloc": "allocMemory", "operator_delete": "deallocMemory", "operator_delete_array": "deallocMemory", "free": "deallocMemory", "realloc": "reallocMemory"}
